@@ -1,6 +1,7 @@
 package main
 
 import (
+	"sync"
 	"fmt"
 	"go/types"
 	"os"
@@ -20,7 +21,8 @@ type Program struct {
 	Prog  *ssa.Program
 	SPkg  *ssa.Package
 	Funcs map[string]*ssa.Function // by contract key, e.g. "(*FilterOptimizer).unionRange", "inRange"
-	cmaps map[*ssa.Global]*constMap
+	cmaps     map[*ssa.Global]*constMap
+	cmapsOnce sync.Once
 }
 
 func repoDir() string {
